@@ -169,7 +169,7 @@ def run_expdecay_case(rng, res, idx, kmax, cap=None):
 
 
 def plan(tier, seed):
-    n = tier_value(tier, 640, 64 * 400)
+    n = tier_value(tier, 640, 64 * 2000)
     shards = tier_value(tier, 4, 14)
     per = n // shards
     return [dict(first=i * per, count=per, budget_s=tier_value(tier, 25, 150)) for i in range(shards)]
